@@ -196,6 +196,57 @@ def check_repro(C, drv, gp, n, fitness, selected):
     C.case(key=('repro', tuple(fitness), tuple(selected)), nontrivial=len(selected) > 0, kind='reproduction')
 
 
+def check_repro_real_tournament(C, drv, n, fitness, n_repro):
+    """`_reproduction` with the library's own tournament: the draws of `np.random.choice` are tapped, the winners
+    follow from the definition (first holder of the minimum among the values drawn for the round), and the slots
+    overwritten must hold copies of exactly those winners"""
+    L = lib.load()
+    np = L['np']
+    np.random.seed(C.rng.randrange(1 << 30))
+    sp = L['TreeSpace'](n_trees=n, n_terminals=2, n_variables=1, n_iterations=1, min_depth=1, max_depth=2,
+                        functions=['SUM', 'ABS'], lower_bound=[0.0], upper_bound=[1.0])
+    for i, (a, t, f) in enumerate(zip(sp.agents, sp.trees, fitness)):
+        a.fit = f
+        a.tag = i
+        t.tag = i
+    draws = []
+    orig = np.random.choice
+
+    def tapped(a, *args, **kw):
+        v = orig(a, *args, **kw)
+        draws.append(v)
+        return v
+    np.random.choice = tapped
+    gp2 = L['kinds']['GP'](hyperparams={'p_reproduction': min(1.0, (n_repro + 0.5) / n)})
+    rp = dict(how='repro-real', fitness=list(fitness), n_repro=n_repro, seed=None)
+    try:
+        st = np.random.get_state()
+        gp2._reproduction(sp)
+    except Exception as ex:
+        C.issue('reproduction-raised', 'oracle', rp, error=repr(ex)[:100])
+        return
+    finally:
+        np.random.choice = orig
+    k = L['c'].TOURNAMENT_SIZE
+    rounds = [draws[j:j + k] for j in range(0, len(draws), k)]
+    sel = []
+    for r_ in rounds:
+        m = min(r_)
+        sel.append(next(i for i, f in enumerate(fitness) if f == m))
+    # replay the overwrite rule on the tags with the winners the definition gives
+    work = list(fitness)
+    ttags = list(range(n))
+    for s_ in sel:
+        w = max(range(n), key=lambda i: (work[i], -i))
+        ttags[w] = ttags[s_]
+        work[w] = 0
+    got = [t.tag for t in sp.trees]
+    rp['draws'] = [float(d) for d in draws]
+    if got != ttags or [a.tag for a in sp.agents] != got:
+        C.issue('reproduction-copied-a-non-winner', 'oracle', rp, trees=got, agents=[a.tag for a in sp.agents], expected=ttags, winners=sel)
+    C.case(key=('repro-real', tuple(fitness), tuple(sel)), nontrivial=len(sel) > 0, kind='reproduction-real-tournament')
+
+
 def check(ctx):
     L = lib.load()
     np = L['np']
@@ -257,6 +308,18 @@ def check(ctx):
                 fit = [round(C.rng.uniform(-5, 5), 2) for _ in range(n)]
             sel = [C.rng.randrange(n) for _ in range(C.rng.randint(0, n))]
             check_repro(C, drv, gp, n, fit, sel)
+        # the library's own tournament inside reproduction, on fitness vectors with exact ties and near ties
+        for k in range(80 if ctx['tier'] == 'quick' else 800):
+            n = C.rng.randint(4, 10)
+            base = [round(C.rng.uniform(0.5, 9), 2) for _ in range(n)]
+            mode = C.rng.choice(['plain', 'ties', 'near'])
+            if mode == 'ties':
+                base = [float(C.rng.choice([1, 2, 3])) for _ in range(n)]
+            elif mode == 'near':
+                j0 = C.rng.randrange(n)
+                base = [base[j0] + C.rng.choice([4e-11, 1e-12, 2.5e-16 * base[j0], -4e-11, 1e-9]) * (1 if i != j0 else 0) * C.rng.choice([1, 2, 3])
+                        if C.rng.random() < 0.6 else b_ for i, b_ in enumerate(base)]
+            check_repro_real_tournament(C, drv, n, base, C.rng.randint(1, max(1, n // 2)))
     finally:
         drv.close()
     return C.result()
@@ -312,6 +375,13 @@ def replay(prop, payload):
             return (gpops.struct(o1) != e1 or gpops.struct(o2) != e2 or o1 is f or o2 is m or o1 is o2
                     or bool(set(gpops.node_ids(o1)) & set(gpops.node_ids(o2)))
                     or T.canon(f) != fb or T.canon(m) != mb)
+        if payload['how'] == 'repro-real':
+            # the tapped draws are part of the witness; re-run on the same fitness with fresh seeds until the rule fails
+            for k in range(60):
+                check_repro_real_tournament(C, drv, len(payload['fitness']), payload['fitness'], payload['n_repro'])
+                if any(i['layer'] == 'oracle' for i in C.issues):
+                    return True
+            return False
         if payload['how'] == 'repro':
             check_repro(C, drv, gp, len(payload['fitness']), payload['fitness'], payload['selected'])
             return any(i['layer'] == 'oracle' for i in C.issues)
